@@ -519,7 +519,7 @@ func coqPraw(p praw) string {
 	switch p.K {
 	case "zero":
 		a = "AZero"
-	case "short":
+	case "short", "pad21", "pad32":
 		a = "ABadLen"
 	}
 	d := "None"
@@ -714,6 +714,13 @@ func (w *world) initialMints() {
 		{1, 0, "1000"}, {1, 3, "25"},
 		{2, 1, "20000000001"}, {2, 3, "123456789012345678"},
 		{3, 0, "5000"}, {3, 2, "777"},
+		// balances at and above the word boundaries: 20*10^18 and 2^64 + dust of the bnb token, 10^30 + 5
+		// of the btcb token (both bep3: 18 against 8 decimals), 2^128 + 3 of the usdc token, 2^64 - 1 of
+		// the old-style token
+		{0, 3, "20000000000000000000"}, {0, 1, "18446744073709551616"}, {0, 1, "1234567891"},
+		{2, 0, "1000000000000000000000000000005"},
+		{1, 2, "340282366920938463463374607431768211459"},
+		{4, 1, "18446744073709551615"},
 	} {
 		x, _ := new(big.Int).SetString(e.x, 10)
 		if err := w.k.MintERC20(w.ctx, w.ctr[e.c], iaddr(w.eaddrs[e.a]), x); err != nil {
@@ -894,6 +901,27 @@ func splits(o op, cls Class, err error, before, after *snap, blockedAcc []bool, 
 	x := o.amount()
 	ok := cls == ClassOk
 	ek := errKind(err)
+	if ok && isConv(o.Kind) {
+		// amounts that no longer fit a machine word (for a bep3 pair: on the ERC20 side)
+		v := new(big.Int).Set(x)
+		if o.Kind == "c2e" && isBep3[o.D] {
+			v.Mul(v, k10)
+		}
+		bep3 := (o.Kind == "c2e" && isBep3[o.D]) || (o.Kind == "e2c" && before.denomOfCtr(o.C) >= 0 && isBep3[before.denomOfCtr(o.C)])
+		switch {
+		case v.Cmp(pow2(64)) >= 0 && bep3:
+			mark(o.Kind + ":ok:bep3-erc20-amount-at-or-above-2^64")
+		case v.Cmp(pow2(64)) >= 0:
+			mark(o.Kind + ":ok:amount-at-or-above-2^64")
+		}
+		if v.Cmp(pow2(128)) >= 0 {
+			mark("amount:at-or-above-2^128-ok")
+			mark("amount:at-or-above-2^128-ok:" + o.Kind) // counted, not part of the quality gate
+		}
+		if v.Cmp(pow2(63)) >= 0 && v.Cmp(pow2(64)) < 0 {
+			mark("amount:between-2^63-and-2^64-ok")
+		}
+	}
 	switch o.Kind {
 	case "c2e":
 		c := before.pairOfDenom(o.D)
@@ -1065,6 +1093,16 @@ func splits(o op, cls Class, err error, before, after *snap, blockedAcc []bool, 
 		if ok && o.Direct {
 			mark("params:ok:keeper-set-params")
 		}
+		if !ok {
+			for _, p := range o.Ps {
+				if p.K == "pad21" || p.K == "pad32" {
+					mark("params:padded-pair-address-refused")
+					if p.C < nPair && before.denomOfCtr(p.C) >= 0 && before.denomOfCtr(p.C) != p.D {
+						mark("params:padded-copy-of-enabled-pair-under-another-denom-refused")
+					}
+				}
+			}
+		}
 		switch {
 		case ok:
 			mark("params:ok")
@@ -1102,6 +1140,11 @@ var allSplits = []string{
 	// parameter changes
 	"params:ok", "params:ok:keeper-set-params", "params:duplicate-address-refused", "params:duplicate-denom-refused", "params:malformed-pair-refused",
 	"params:malformed-or-duplicate-token-refused",
+	"params:padded-pair-address-refused", "params:padded-copy-of-enabled-pair-under-another-denom-refused",
+	// amounts at and above the word boundaries
+	"e2c:ok:bep3-erc20-amount-at-or-above-2^64", "c2e:ok:bep3-erc20-amount-at-or-above-2^64",
+	"e2c:ok:amount-at-or-above-2^64", "c2e:ok:amount-at-or-above-2^64", "cos2e:ok:amount-at-or-above-2^64", "e2cos:ok:amount-at-or-above-2^64",
+	"amount:at-or-above-2^128-ok", "amount:between-2^63-and-2^64-ok",
 	// the old-style pair (transfer returns false instead of reverting)
 	"e2c:old-style:exact-balance-ok", "e2c:old-style:ok", "e2c:old-style:zero-balance-initiator-refused",
 	"e2c:old-style:one-unit-short-refused", "e2c:old-style:short-refused", "xfer:old-style:returned-false",
@@ -1113,7 +1156,7 @@ func run(o Opts) (*Result, error) {
 		n = defaultLen
 	}
 	res := &Result{Property: "C10", Seed: o.Seed,
-		Rule: "histories of " + fmt.Sprint(n) + " transactions (the four evmutil conversions through ValidateBasic + the app's message router or the keeper; ERC20 transfer/mint/approve/transferFrom in the real EVM on the compiled OpenZeppelin contracts, on an Approval-emitting token and on an old-style token whose transfer returns false instead of reverting (initiators holding nothing, one unit less than the amount, exactly the amount); bank MsgSend; parameter-change proposals, well-formed and malformed, through the governance handler; multi-message transactions; receivers include the module, a blocked module account and the zero address) generated from splitmix64(seed, history index) on a fresh app.TestApp; every transaction runs on a cached context discarded on failure; a history is non-trivial when it contains at least one successful conversion in each family (EVM-native and cosmos-native) and at least one refused conversion; distinct by hash of the operation list"}
+		Rule: "histories of " + fmt.Sprint(n) + " transactions (the four evmutil conversions through ValidateBasic + the app's message router or the keeper; ERC20 transfer/mint/approve/transferFrom in the real EVM on the compiled OpenZeppelin contracts, on an Approval-emitting token and on an old-style token whose transfer returns false instead of reverting (initiators holding nothing, one unit less than the amount, exactly the amount); bank MsgSend; parameter-change proposals, well-formed and malformed, through the governance handler; multi-message transactions; receivers include the module, a blocked module account and the zero address; amounts and balances on both sides include the word boundaries 2^63, 2^64, 2^128, 20*10^18 and 10^30 with and without dust; malformed proposals include pair addresses of 19, 21 and 32 bytes, among them a zero-padded copy of an enabled pair's address under another denom) generated from splitmix64(seed, history index) on a fresh app.TestApp; every transaction runs on a cached context discarded on failure; a history is non-trivial when it contains at least one successful conversion in each family (EVM-native and cosmos-native) and at least one refused conversion; distinct by hash of the operation list"}
 	cnt := NewCounters()
 
 	if o.Replay != "" {
